@@ -24,7 +24,7 @@ pub fn check_contract(recs: &[Rec], tr: u8, owner: usize, independent: bool, is_
     let mut in_owner_poll = false;
     for r in recs {
         match &r.ev {
-            Ev::PollStart { task } if *task == owner => {
+            Ev::PollStart { task, .. } if *task == owner => {
                 in_owner_poll = true;
                 streak = 0;
             }
